@@ -20,6 +20,12 @@ func main() {
 		cmdGen(os.Args[2:])
 	case "smoke":
 		cmdSmoke(os.Args[2:])
+	case "c19":
+		cmdC19(os.Args[2:])
+	case "c15":
+		cmdC15(os.Args[2:])
+	case "c17":
+		cmdC17(os.Args[2:])
 	case "c13":
 		cmdC13(os.Args[2:])
 	default:
